@@ -430,6 +430,8 @@ func (x *Exec) registerLib() {
 		"go/ast.IsExported",
 		"reflect.ValueOf",
 		"reflect.TypeOf",
+		"(*go/token.File).PositionFor",
+		"(*go/token.FileSet).File",
 		"(reflect.Value).Pointer",
 	} {
 		pureUF(n)
@@ -438,6 +440,26 @@ func (x *Exec) registerLib() {
 	noeffect := &libFn{apply: func(f *Frame, st *State, ins ssa.Instruction, args []Value) (Value, bool) {
 		x.note("library spec: Output.Warnf / Debugf only print (no effect on interpreter state)")
 		return &Struct{}, true
+	}, mods: noMods}
+	for _, n := range []string{"(*sync.Mutex).Lock", "(*sync.Mutex).Unlock"} {
+		x.lib[n] = &libFn{apply: func(f *Frame, st *State, ins ssa.Instruction, args []Value) (Value, bool) {
+			x.note("library spec: sync.Mutex.Lock / Unlock have no effect on the modelled state (sequential model)")
+			return &Struct{}, true
+		}, mods: noMods}
+	}
+	x.lib["(*go/token.Position).IsValid"] = &libFn{apply: func(f *Frame, st *State, ins ssa.Instruction, args []Value) (Value, bool) {
+		x.note("library spec: token.Position.IsValid() == (Line > 0)")
+		fn := x.curCallee
+		stT := fn.Params[0].Type().Underlying().(*types.Pointer).Elem()
+		su := stT.Underlying().(*types.Struct)
+		for i := 0; i < su.NumFields(); i++ {
+			if su.Field(i).Name() == "Line" {
+				v := x.load(st, x.fieldAddr(args[0], stT, i), su.Field(i).Type()).(*smt.Term)
+				return B.BVCmp("bvsgt", v, B.BVC(0, v.S.W)), true
+			}
+		}
+		unsupported("token.Position has no field Line")
+		return nil, false
 	}, mods: noMods}
 	x.lib["(*github.com/cosmos72/gomacro/base.Signals).IsEmpty"] = &libFn{apply: func(f *Frame, st *State, ins ssa.Instruction, args []Value) (Value, bool) {
 		x.note("library spec: Signals.IsEmpty() == (Sync == 0 && Debug == 0 && Async == 0) (an atomic 32-bit load of the four bytes; the padding byte is never written)")
